@@ -348,6 +348,8 @@ pub struct StreamQ {
     pub end_seen_at: Option<u64>,
     /// shared count of handled calls
     pub clock: Rc<std::cell::Cell<u64>>,
+    /// the most recent poll found the queue empty and not ended (returned Pending)
+    pub armed: bool,
 }
 
 #[derive(Debug, Default)]
@@ -379,6 +381,7 @@ impl futures_util::Stream for SimStream {
     fn poll_next(self: Pin<&mut Self>, _cx: &mut Context<'_>) -> Poll<Option<Reply<Item>>> {
         let mut q = self.0.borrow_mut();
         q.polls += 1;
+        q.armed = q.items.is_empty() && !q.ended;
         if let Some(r) = q.items.pop_front() {
             q.progress += 1;
             return Poll::Ready(Some(r));
@@ -452,6 +455,12 @@ pub struct Observation {
     pub streams: BTreeMap<(u32, u32), (Vec<Option<bool>>, bool)>,
     /// connections that have reached the listener
     pub arrived: Vec<bool>,
+    /// per connection: the last read poll on its transport returned Pending with nothing to deliver
+    pub read_armed: Vec<bool>,
+    /// the last poll of accept returned Pending
+    pub accept_armed: bool,
+    /// per stream handed to the server: the last poll of it returned Pending (queue empty, not ended)
+    pub stream_armed: BTreeMap<(u32, u32), bool>,
 }
 
 #[derive(Debug, Default)]
@@ -623,6 +632,9 @@ pub fn run_scenario_without(sc: &Scenario, absent: &[bool]) -> Trace {
                     ended: ended.clone(),
                     streams: streams.clone(),
                     arrived: handles.iter().map(|h| h.is_some()).collect(),
+                    read_armed: handles.iter().map(|h| h.as_ref().is_some_and(|h| h.read.borrow().armed)).collect(),
+                    accept_armed: listener.0.borrow().armed,
+                    stream_armed: state.borrow().streams.iter().map(|(k, q)| (*k, q.borrow().armed)).collect(),
                 });
             }
             _ => {}
@@ -850,6 +862,31 @@ pub fn judge_trace(sc: &Scenario, trace: &Trace) -> Result<(), Fail> {
                     "calls-not-handled-once-in-order",
                     format!("connection {c} at {at}: the service should have handled {:?}, it handled {:?}", m.handled, handled),
                 ));
+            }
+        }
+        // Wake discipline. The simulation polls with a no-op waker until nothing moves, so a server
+        // that returned Pending without waiting on one of its event sources would go unnoticed here
+        // and hang under a real runtime. At every quiescent point the last poll of accept must have
+        // returned Pending, and for every live, fault-free connection either the last poll of a
+        // read on its transport returned Pending (it is being read) or a stream of one of its
+        // calls was polled and found empty (it is parked in streaming mode).
+        if trace.server_ended.is_none() {
+            if !obs.accept_armed {
+                return Err(Fail::new("server-not-waiting-for-connections", format!("at {at} the server returned Pending although its last poll of accept() did not (no waker would be registered with the listener)")));
+            }
+            for c in 0..sc.conns.len() {
+                let script = &sc.conns[c];
+                let clean = script.write_fail_from.is_none() && script.frames.iter().all(|f| matches!(f, FrameSpec::Call { .. })) && !script.truncate_last;
+                if !clean || !obs.arrived[c] || obs.ended[c] || model_conn(sc, c, obs).dead {
+                    continue;
+                }
+                let parked = obs.stream_armed.iter().any(|((sc_c, _), armed)| *sc_c as usize == c && *armed);
+                if !obs.read_armed[c] && !parked {
+                    return Err(Fail::new(
+                        "server-not-waiting-on-connection",
+                        format!("at {at} the server returned Pending without waiting on connection {c}: the last read polled on its transport did not return Pending and none of its streams was polled and found empty (under a real runtime nothing would wake the server for this client)"),
+                    ));
+                }
             }
         }
         // every log entry belongs to an existing connection
